@@ -68,7 +68,8 @@ class MarketRun:
         self.p0 = case["p0"]
         self.lg = RecLogger()
         self.m = Market(market_id=0, prng=random.Random(0), simulator=None, name="m", logger=self.lg)
-        self.m.setup({"tickSize": self.tick, "marketPrice": self.p0})
+        # (the optional keys Market.setup documents: they declare properties of the asset and leave book and statistics alone)
+        self.m.setup(dict({"tickSize": self.tick, "marketPrice": self.p0}, **case.get("extra_settings", {})))
         self.M = BookModel(self.tick, self.p0)
         self.live: List[Any] = []  # (Order, MO) in acceptance order
         self.by_id: Dict[int, Any] = {}
@@ -105,8 +106,17 @@ class MarketRun:
     def op_submit(self, kind: str, is_buy: bool, price: Optional[float], vol: int, ttl: Optional[int], agent: int) -> None:
         m, M = self.m, self.M
         pre_premise = M.premise()
-        o = Order(agent_id=agent, market_id=0, is_buy=is_buy, kind=LIMIT_ORDER if kind == "L" else MARKET_ORDER,
-                  volume=vol, price=price, ttl=ttl)
+        n_every = self.case.get("rewrite_every")
+        if n_every and M.nid % n_every == 0:
+            # a pending order rewritten before acceptance, as an event's before-order hook may do (the order-mistake shock turns
+            # whatever was submitted into a limit order of its own side, volume, price and lifetime): what counts is the order as accepted
+            o = Order(agent_id=agent, market_id=0, is_buy=not is_buy, kind=MARKET_ORDER if kind == "L" else LIMIT_ORDER,
+                      volume=vol + 1, price=None if kind == "L" else self.p0, ttl=None)
+            o.is_buy, o.kind, o.volume, o.price, o.ttl = is_buy, (LIMIT_ORDER if kind == "L" else MARKET_ORDER), vol, price, ttl
+            self.flag("rewritten_before_acceptance")
+        else:
+            o = Order(agent_id=agent, market_id=0, is_buy=is_buy, kind=LIMIT_ORDER if kind == "L" else MARKET_ORDER,
+                      volume=vol, price=price, ttl=ttl)
         log = _call(m._add_order, o)
         logs = self.new_logs()
         # acceptance record
@@ -138,17 +148,22 @@ class MarketRun:
         if self.case["continuous"] and M.running:
             self.round(continuous=(pre_premise in ("empty", "clear")), incoming=mo)
 
-    def op_cancel(self, k: int) -> None:
+    def op_cancel(self, k: int, via_copy: bool = False) -> None:
         if not self.live:
             return
         o, mo = self.live[k % len(self.live)]
+        # (via_copy: the cancel names an equal snapshot of the order instead of the submitted object -- orders compare by value,
+        #  and pams' own tests cancel that way)
+        target = copy.deepcopy(o) if via_copy and mo.state == "rest" else o
+        if target is not o:
+            self.flag("cancel_via_copy")
         was_resting = mo.state == "rest"
         pre_vol = o.volume
         if mo.state == "rest" and mo.filled > 0:
             self.flag("cancel_after_partial")
         if mo.state != "rest":
             self.flag("cancel_of_dead_order")
-        c = Cancel(order=o)
+        c = Cancel(order=target)
         log = _call(self.m._cancel_order, c)
         logs = self.new_logs()
         self.M.cancel(mo)
@@ -162,7 +177,7 @@ class MarketRun:
             self.fail("C04", "cancel_changes_volume", f"{pre_vol} -> log {log.volume} order {o.volume}")
         if log.order_id != mo.oid or log.cancel_time != self.M.t or log.order_time != mo.t:
             self.fail("C04", "cancel_fields", f"id {log.order_id} cancel_time {log.cancel_time} order_time {log.order_time}")
-        if not o.is_canceled:
+        if not target.is_canceled:
             self.fail("C04", "is_canceled_flag", "order not marked cancelled")
         self.compare("cancel")
         if self.case["continuous"] and self.M.running:
@@ -195,6 +210,25 @@ class MarketRun:
             if (M.best(True), M.best(False)) != pre_best:
                 self.flag("expiry_changes_best")
         self.compare("tick")
+
+    def op_jump(self, k: int) -> None:
+        """Market._set_time: the clock moves k steps at once (what pams' own tests do to skip ahead)."""
+        if "C08" in self.oracles or k < 2:
+            return self.op_tick()
+        m, M = self.m, self.M
+        _call(m._set_time, time=M.t + k, next_fundamental_price=self.p0)
+        expired = M.clock_jump(k)
+        logs = self.new_logs()
+        got = sorted((x.order_id, x.volume, x.is_buy, x.price, x.ttl, x.order_time, x.time) for x in logs if isinstance(x, ExpirationLog))
+        exp = sorted((o.oid, o.vol, o.is_buy, o.price, o.ttl, o.t, M.t) for o in expired)
+        if got != exp or len(logs) != len(got):
+            self.fail("C04", "expiry_records", f"clock set from {M.t - k} to {M.t}: expiration logs {got} expected {exp}")
+        if expired:
+            self.flag("expiry")
+        self.flag("clock_jump")
+        if any(o.t + o.ttl < M.t - 1 for o in expired):
+            self.flag("expiry_skipped_over")
+        self.compare("jump")
 
     def op_running(self, b: bool) -> None:
         if self.M.running != b:
@@ -588,9 +622,11 @@ class MarketRun:
             elif k == "M":
                 self.op_submit("M", op[1], None, op[2], op[3], op[4])
             elif k == "C":
-                self.op_cancel(op[1])
+                self.op_cancel(op[1], bool(op[2]) if len(op) > 2 else False)
             elif k == "T":
                 self.op_tick()
+            elif k == "J":
+                self.op_jump(op[1])
             elif k == "R":
                 self.op_running(op[1])
             elif k == "X":
@@ -640,7 +676,7 @@ P0S = [100.0, 300.0, 10.5, 1000.0, 7.25, 50.0]
 @st.composite
 def market_cases(draw, max_ops: int = 60, market_frac: int = 2, illegal: bool = False, few_levels: bool = False,
                  batch_bias: bool = False, toggles: bool = True, max_volume: int = 10000, match_weight: int = 2,
-                 pre_ticks: bool = False, deep: bool = False, nonpositive: bool = False):
+                 pre_ticks: bool = False, deep: bool = False, nonpositive: bool = False, jumps: bool = False):
     tick = draw(st.one_of(st.sampled_from(TICKS), st.floats(min_value=1e-3, max_value=20.0, allow_nan=False).filter(lambda x: x > 0)))
     p0 = draw(st.one_of(st.sampled_from(P0S), st.floats(min_value=5.0, max_value=5000.0, allow_nan=False)))
     if p0 < 8 * tick:
@@ -689,12 +725,14 @@ def market_cases(draw, max_ops: int = 60, market_frac: int = 2, illegal: bool = 
                           st.tuples(st.just("L"), st.just(False), far_ask, small, long_ttl, agent),
                           limit)
     market = st.tuples(st.just("M"), st.booleans(), volume, ttl, agent)
-    cancel = st.tuples(st.just("C"), st.integers(0, 200))
+    cancel = st.tuples(st.just("C"), st.integers(0, 200), st.sampled_from([False, False, False, True]))
     tick_op = st.just(("T",))
     run_op = st.tuples(st.just("R"), st.sampled_from([True, True, False]))
     match = st.just(("X",))
     alts = [limit] * 8 + [market] * market_frac + [cancel] * (6 if deep else 3) + [tick_op] * (1 if deep else 3) + [match] * match_weight
     alts += [st.tuples(st.just("D"), st.booleans(), st.sampled_from([0.3, 0.5, 0.8, 1.0]))]
+    if jumps:
+        alts += [st.tuples(st.just("J"), st.sampled_from([2, 3, 6, 12]))]
     if deep:
         alts += [st.tuples(st.just("CB"), st.booleans())] * 4
     if toggles:
@@ -704,7 +742,17 @@ def market_cases(draw, max_ops: int = 60, market_frac: int = 2, illegal: bool = 
                  st.tuples(st.just("FM"), st.booleans(), price, st.integers(1, 5))]
     n_ops = draw(st.integers(min_value=1, max_value=max_ops))
     ops = draw(st.lists(st.one_of(*alts), min_size=n_ops, max_size=n_ops))
+    if toggles and not deep and draw(st.integers(0, 2)) == 0:
+        # a book that crosses while the market is closed, is carried over one or two clock steps and is cleared by the round that
+        # the first order after the re-opening triggers
+        n_pre = draw(st.integers(3, 7))
+        pre = [("R", False)] + draw(st.lists(st.one_of(limit, limit, limit, market), min_size=n_pre, max_size=n_pre)) + [("T",)] * draw(st.integers(1, 2)) + [("R", True)]
+        at = draw(st.integers(0, min(len(ops), 10)))
+        ops = ops[:at] + pre + ops[at:]
     case = {"tick": tick, "p0": p0, "continuous": continuous, "running0": running0, "ops": [list(o) for o in ops]}
+    case["rewrite_every"] = draw(st.sampled_from([None, None, None, 2, 3]))
+    if draw(st.integers(0, 3)) == 0:
+        case["extra_settings"] = draw(st.sampled_from([{"tradeVolume": 90}, {"outstandingShares": 1000}, {"tradeVolume": 7, "outstandingShares": 25000, "fundamentalPrice": p0 * 2}]))
     if deep:
         case["drain_after_cancel"] = True
         case["peel_after_cancel"] = True
